@@ -4,16 +4,13 @@ change after the check was strengthened; records the result and the history in m
 import json, subprocess, sys
 sid, prop, hist = sys.argv[1:4]
 dst = f"/verif/seeded/{sid}"
-assert subprocess.run(["git", "-C", "/repo", "status", "--porcelain"], capture_output=True, text=True).stdout == ""
-subprocess.run(["git", "-C", "/repo", "apply", f"{dst}/patch.diff"], check=True)
-try:
-    p = subprocess.run(["./check", prop, "--tier", "quick"], cwd="/verif", capture_output=True, text=True)
-finally:
-    subprocess.run(["git", "-C", "/repo", "checkout", "--", "."], check=True)
-mech = [l for l in p.stdout.splitlines() if l.startswith("MECHANISMS")]
+sys.path.insert(0, "/verif/tools")
+import seedlib
+with seedlib.patched(f"{dst}/patch.diff") as (env, how):
+    res = seedlib.run_check(env, prop)
 meta = json.load(open(f"{dst}/meta.json"))
 key = f"{prop}/quick (after strengthening)"
-meta["checks"][key] = {"exit": p.returncode, "mechanisms": json.loads(mech[0][11:]) if mech else None}
+meta["checks"][key] = res
 meta["caught_by"] = [k for k, v in meta["checks"].items() if v["exit"] == 1]
 meta["history"] = hist
 json.dump(meta, open(f"{dst}/meta.json", "w"), indent=1)
